@@ -118,6 +118,7 @@ def run(chk):
         "errors become payload errors; the final flush is asserted empty."
     )
     chk.not_decided = "equality with the reference decoding, progress to EOF in every schedule, the constant factor of the memory bound."
+    chk.explanation += " Also decided: the size test inside an accumulating loop is conditional on nothing but the limit and compares a running total."
     bounded_calls(chk, repo)
 
     # ---- C09.flush ------------------------------------------------------------------------------------------
